@@ -250,6 +250,7 @@ CHECKS["C01"]["rule"] = (
 
 CHECKS["C03"] = dict(
     src="harness/C03_history.cpp",
+    also=["C03C"],
     cases=dict(quick=3000, thorough=40000),
     rule="(filled below)",
     technique="property-based testing of call histories with an evaluation-indexed termination condition; fork per case with LeakSanitizer at exit",
@@ -440,6 +441,13 @@ CHECKS["C19"] = dict(
                "documented thread-safe surface; part 2 therefore judges the threaded planners by their results (C01 oracle, ASan, watchdog), "
                "not by TSan.",
     assumptions=["the harness's own shared state is atomic / barrier protected (the library's IterationTerminationCondition is not used across threads)"],
+)
+CHECKS["C03C"] = dict(
+    src="harness/C02_control.cpp",
+    cxxflags=["-DVF_C03C"],
+    registered=False,
+    cases=dict(quick=1500, thorough=20000),
+    rule="companion of C03", technique="", level_text="", level_note="",
 )
 CHECKS["C19P"] = dict(
     src="harness/C01_paths.cpp",
